@@ -85,7 +85,7 @@ META = {
         "sections": ["Tables.QuotedQualifierNames", "Tables.LiteralQualifierNames", "Tables.ToggleQualifierNames", "Arith.isLeapYear", "Arith.toOriginLength"],
         "rule": "two hand-written records at EVERY truncation offset and every line (delete/duplicate/swap/blank, indent shrink/strip/grow, value dropped, line cut at 7 columns), generated and corpus records sampled: declared length changed 14 ways, LOCUS spacing (field depth) changed 8 ways, 150..500 byte flips and 50..160 byte insertions/deletions from a hostile alphabet, CRLF whole/mixed/bare CR; every 7th mutant also through the auto-detecting scanner; 1500 (thorough 20000) streams assembled from format fragments; the inputs named by the property; location/date/feature-table strings (valid, every prefix, mutants, random) through AsLocation/AsDate/INSDCTableParser with the model, locator/modifier/selector/molecule/topology strings under recover and a 20 s limit. Oracle: no panic, no hang, a declared length that differs from the residues present is not read cleanly, a truncated record is neither read as complete nor dropped without an error; thorough: scan time on records of doubling size.",
         "assumptions": ["every scan is a correspondence case for the reader model, so the totality theorems speak about the code that ran",
-                        "theorems so far: AsDate total; request_z = request. Panic-freedom of the whole reader model is decided on the explored inputs by the correspondence (the model's Panic outcome = a Go panic)",
+                        "Panic-freedom of the GenBank/FASTA/auto scanners, the feature-table parser and the location parsers is a theorem for inputs below 10^9 bytes; OutOfFuel-freedom is not proved (decided on the explored inputs by the correspondence)",
                         "time proportional to the input is measured (thorough tier), not proved"],
     },
     "C17": {
